@@ -118,8 +118,11 @@ func AnalyzePool(p *load.Program, r *Roles, depth int) *UnitResult {
 	// ---- Submit -----------------------------------------------------------
 	var wrapper *ssa.Function
 	var wrapPoolIdx, wrapTaskIdx = -1, -1
+	var wrapCells map[int]*eng.Term // function values the wrapper captured, as Submit left them
+	var submitRecv *eng.Term
 	if fn := r.PoolSubmit; fn != nil && len(fn.Params) == 2 {
 		recv, task := eng.Param(0, fn.Params[0].Name()), eng.Param(1, fn.Params[1].Name())
+		submitRecv = recv
 		wgAddr := eng.FieldAddr(recv, pf.wg)
 		tasksCh := eng.Load(eng.FieldAddr(recv, pf.tasks))
 		mon := &poolMon{name: "submit", init: func() eng.MState { return kvState{s: "adds=0,sends=0"} }}
@@ -148,7 +151,11 @@ func AnalyzePool(p *load.Program, r *Roles, depth int) *UnitResult {
 				if ev.Val.K == eng.KClosure {
 					if f, ok := ev.Val.Aux.(*ssa.Function); ok {
 						wrapper = f
+						wrapCells = map[int]*eng.Term{}
 						for i, b := range ev.Val.A {
+							if m := c.Mem(b); m != nil && m.K == eng.KClosure {
+								wrapCells[i] = m // a captured function value (e.g. the method value p.wg.Done)
+							}
 							switch c.Mem(b) {
 							case recv:
 								wrapPoolIdx = i
@@ -208,7 +215,8 @@ func AnalyzePool(p *load.Program, r *Roles, depth int) *UnitResult {
 				if wrapPoolIdx >= 0 && (base == eng.Load(free[wrapPoolIdx]) || base == free[wrapPoolIdx]) {
 					return true
 				}
-				return false
+				// reached through a value Submit captured: the pool Submit was called on
+				return submitRecv != nil && base == submitRecv
 			}
 			switch ev.Kind {
 			case "defer":
@@ -240,7 +248,23 @@ func AnalyzePool(p *load.Program, r *Roles, depth int) *UnitResult {
 			}
 			return kvState{s: fmt.Sprintf("calls=%d,dones=%d,deferred=%d", calls, dones, deferred)}
 		}
-		run(wrapper, free, mon)
+		memInit := map[*eng.Term]*eng.Term{}
+		for i, v := range wrapCells {
+			if i < len(free) && i != wrapTaskIdx && i != wrapPoolIdx {
+				memInit[free[i]] = v
+			}
+		}
+		{
+			var e *eng.Engine
+			cfg := eng.Config{Prog: p.Prog, Pkg: p.SSA, Fset: p.Fset, Root: wrapper, RootFree: free, MaxDepth: depth, MaxStates: 20000,
+				Classify: r.Classifier(Mode{}), IntLowerBound: budgetLowerBound(&e), Monitors: []eng.Monitor{mon}, MemInit: memInit}
+			e = eng.New(cfg)
+			e.Run()
+			res.Stats.add(e, wrapper)
+			for _, pr := range e.SortedProblems() {
+				col.Unproven("C12.ENGINE,C08.ENGINE", "engine:"+wrapper.Name()+":"+pr.Kind, pr.Pos, pr.Msg, nil)
+			}
+		}
 	} else if r.PoolSubmit != nil {
 		col.Check("C12.R3", "WorkerPool.Submit.wrapper:return", false, p.Position(r.PoolSubmit.Pos()), "no wrapper closure around the submitted task was found in Submit", nil)
 	}
@@ -273,8 +297,30 @@ func AnalyzePool(p *load.Program, r *Roles, depth int) *UnitResult {
 	if goInstr != nil {
 		workerFn = goInstr.Common().StaticCallee()
 	}
-	if workerFn != nil && workerFn.Signature.Recv() != nil && recvName(workerFn.Signature.Recv().Type()) == "WorkerPool" && len(workerFn.Params) == 1 {
-		recv := eng.Param(0, workerFn.Params[0].Name())
+	// the worker is a method of the pool, or a closure that captured the pool
+	var workerRecv *eng.Term
+	var workerFree []*eng.Term
+	workerPoolFree := -1
+	if workerFn != nil {
+		switch {
+		case workerFn.Signature.Recv() != nil && recvName(workerFn.Signature.Recv().Type()) == "WorkerPool" && len(workerFn.Params) == 1:
+			workerRecv = eng.Param(0, workerFn.Params[0].Name())
+		case workerFn.Signature.Recv() == nil && len(workerFn.Params) == 0:
+			for k, fv := range workerFn.FreeVars {
+				workerFree = append(workerFree, eng.Free(k, fv.Name()))
+				if pt, ok := fv.Type().Underlying().(*types.Pointer); ok {
+					switch {
+					case isNamedPtr(pt.Elem(), r.WorkerPool): // captured variable holding the *WorkerPool
+						workerRecv, workerPoolFree = eng.Load(eng.Free(k, fv.Name())), k
+					case types.Identical(pt.Elem(), r.WorkerPool):
+						workerRecv, workerPoolFree = eng.Free(k, fv.Name()), k
+					}
+				}
+			}
+		}
+	}
+	if workerRecv != nil {
+		recv := workerRecv
 		tasksCh := eng.Load(eng.FieldAddr(recv, pf.tasks))
 		var doneCh *eng.Term
 		if pf.done >= 0 {
@@ -289,7 +335,7 @@ func AnalyzePool(p *load.Program, r *Roles, depth int) *UnitResult {
 			con := func(role string) string { return "WorkerPool.worker:" + role }
 			switch ev.Kind {
 			case "select":
-				chk(c, "C08.R2", con("receive"), pending == nil, ev, "the worker goes back to receiving while a received task has not been executed (task dropped)")
+				chk(c, "C08.R2", con("receive"), pending == nil || c.IsNil(pending) == eng.TriTrue, ev, "the worker goes back to receiving while a received task has not been executed (task dropped)")
 				listens := false
 				for i, cs := range ev.Cases {
 					if cs.Send {
@@ -341,7 +387,7 @@ func AnalyzePool(p *load.Program, r *Roles, depth int) *UnitResult {
 					}
 				}
 			case "recv":
-				chk(c, "C08.R2", con("receive"), pending == nil, ev, "the worker goes back to receiving while a received task has not been executed (task dropped)")
+				chk(c, "C08.R2", con("receive"), pending == nil || c.IsNil(pending) == eng.TriTrue, ev, "the worker goes back to receiving while a received task has not been executed (task dropped)")
 				if blockListens[posStr(ev.Pos)] == nil {
 					blockListens[posStr(ev.Pos)] = map[string]bool{}
 				}
@@ -376,7 +422,7 @@ func AnalyzePool(p *load.Program, r *Roles, depth int) *UnitResult {
 			case "send":
 				chk(c, "C08.R2", con("receive"), false, ev, "the worker sends on a channel")
 			case "return":
-				chk(c, "C08.R2", con("return"), pending == nil || (okT != nil && c.Eval(okT) == eng.TriFalse), ev, "the worker exits holding a received task it never ran")
+				chk(c, "C08.R2", con("return"), pending == nil || c.IsNil(pending) == eng.TriTrue || (okT != nil && c.Eval(okT) == eng.TriFalse), ev, "the worker exits holding a received task it never ran")
 				switch st {
 				case "got-done":
 					closedListen["done"] = true
@@ -389,7 +435,7 @@ func AnalyzePool(p *load.Program, r *Roles, depth int) *UnitResult {
 			}
 			return kvState{s: st, terms: []*eng.Term{pending, okT}}
 		}
-		run(workerFn, nil, mon)
+		run(workerFn, workerFree, mon)
 	} else {
 		col.Check("C08.R2", "WorkerPool.worker:receive", false, p.Position(r.FnNewWorkerPool.Pos()), "cannot find the worker method started by the pool constructor", nil)
 	}
@@ -411,13 +457,24 @@ func AnalyzePool(p *load.Program, r *Roles, depth int) *UnitResult {
 					chk(c, "C19.R5,C12.R6", con("make-chan"), b.HasLo && b.Lo >= 0, ev, "the pool constructor makes a channel whose size ("+ev.Val.Pretty()+") is not known to be non-negative: a non-positive pool size would panic instead of meaning one worker")
 				}
 			case "go":
-				ok := ev.Callee == workerFn && len(ev.Args) == 1
-				chk(c, "C08.R1", con("spawn"), ok, ev, "the constructor starts something other than the pool's worker method")
+				// the pool the started worker serves: the receiver, or what the closure captured
+				var served *eng.Term
+				switch {
+				case ev.Callee == workerFn && len(ev.Args) == 1 && workerPoolFree < 0:
+					served = ev.Args[0]
+				case ev.Callee == workerFn && workerPoolFree >= 0 && ev.FnTerm != nil && ev.FnTerm.K == eng.KClosure && workerPoolFree < len(ev.FnTerm.A):
+					served = ev.FnTerm.A[workerPoolFree]
+					if m := c.Mem(served); m != nil && m.K != eng.KUnknown && m.K != eng.KLoad {
+						served = m // the captured variable's content
+					}
+				}
+				ok := served != nil
+				chk(c, "C08.R1", con("spawn"), ok, ev, "the constructor starts something other than the pool's worker")
 				if ok {
 					if pool == nil {
-						pool = ev.Args[0]
+						pool = served
 					}
-					chk(c, "C08.R1", con("spawn"), pool == ev.Args[0], ev, "workers are started on different pools")
+					chk(c, "C08.R1", con("spawn"), pool == served, ev, "workers are started on different pools")
 				}
 				if inIter < 2 {
 					inIter++
